@@ -33,7 +33,10 @@ LEVEL_TEXT = ("TopDownInitialize is proved IN FULL for the model, every n>=1 and
               "reg_b[:e], CX fan-out, U on reg_b, V^T on reg_a, reverse_bits yields v/||s|| at the little-endian index, given the "
               "SVD specification and sub-encoders meeting their specifications (C01_plesch_assembly, uses C09 round trip and "
               "C07 sum identity), same for SVDInitialize (C01_svd_assembly); BAA at zero loss for split/canonical/brute_force "
-              "from C08 (C01_baa_zero). NOT proved (K4 hypotheses, oracle only): np.linalg.svd, the sub-encoders "
+              "from C08 (C01_baa_zero). Corollaries of the other properties: C01_ucg (C12_column_t at t = 0: the UCG/UCGE level loop "
+              "maps v to |0..0> exactly and every left inverse maps |0..0> to v, given qiskit's UCGate diagonal specification) and "
+              "C01_isometry (C03 with one column: the ccd sweep G_0 maps a unit v to phi*e_0 with |phi| = 1; _extend_to_unitary of a "
+              "one-column isometry is unitary with column 0 = v; Knill's product of the emitted factors has column 0 = v). NOT proved (K4 hypotheses, oracle only): np.linalg.svd, the sub-encoders "
               "(isometry/unitary decompositions C02/C03), UCG/UCGE (C12 pending), isometry-based (C03 pending), BAA greedy. "
               "Tie: state tree, allocation, angle tree, every ucr call (axis, last_control, wires, angles), width, flattened gate "
               "list and global phase (mod 2pi) of the real TopDownInitialize vs the Float model for all n<=5 (6 thorough) x 13 "
@@ -50,7 +53,7 @@ LEVEL_NOTE = ("Trusted: Lean kernel (standard axioms); hand model <-> code beyon
 LEAN_TARGETS = ["QclibModel.Props.C01"]
 THEOREMS = ["Qclib.C01_angles", "Qclib.C01_topdown_path", "Qclib.C01_topdown_level", "Qclib.C01_topdown_circuit",
             "Qclib.C01_topdown_nophase", "Qclib.C01_encode_dispatch", "Qclib.C01_rank1", "Qclib.C01_plesch_assembly",
-            "Qclib.C01_svd_assembly", "Qclib.C01_baa_zero"]
+            "Qclib.C01_svd_assembly", "Qclib.C01_baa_zero", "Qclib.C01_ucg", "Qclib.C01_isometry"]
 TRUSTED = [
     "abs(complex), cmath.phase, np.angle: leaf (mag, arg) are taken from the real state tree and re-checked against sqrt(re^2+im^2), atan2 to 1e-12 in the driver",
     "qiskit ry/rz/cx matrices and circuit.global_phase equal matRY/matRZ/X/scale(e^{i theta}) of Sem/Denote.lean (C13's harness validates the matrices each run; the oracle validates the phase)",
